@@ -39,9 +39,13 @@ def build_tools(scratch, which=("tl2gen", "verifdump")):
     return bins, ""
 
 
-def dump_ir(verifdump, files, out_json, tl2_whitelist=None, timeout=120):
-    """Run the kernel; returns (instances | None, stderr)."""
+def dump_ir(verifdump, files, out_json, tl2_whitelist=None, timeout=120, instantiate_constants=True):
+    """Run the kernel; returns (instances | None, stderr).  instantiate_constants=True resolves
+    instances exactly as the Go generator does (gengo sets OptionsKernel.InstantiateConstants):
+    `tuple int 4` becomes the fixed array [4]int32 (Go array, no length-sanity check)."""
     cmd = [str(verifdump), f"--dumpOut={out_json}"]
+    if instantiate_constants:
+        cmd.append("--instantiateConstants")
     if tl2_whitelist is not None:
         cmd.append(f"--tl2WhiteList={tl2_whitelist}")
     cmd += [str(f) for f in files]
@@ -86,6 +90,49 @@ def prim_tokens(x):
     return [p]
 
 
+def specialise_fixed_tuples(ins):
+    """gengo turns a tuple whose size argument is a constant at the reference site into a Go array
+    [c]T (no length-sanity check, no length-mismatch write error).  Mirror that in the IR: every
+    reference (struct field, array/dict element, function result) to a dynamic-size tuple instance
+    whose first nat argument is a number c is redirected to a synthesised `fixed:c` copy of that
+    instance (nat arguments unchanged, so the element's parameter indices stay valid).
+    Returns a new instance list; ids of existing instances are unchanged."""
+    import copy
+    out = copy.deepcopy(ins)
+    cache = {}
+
+    def fix(f):
+        if f is None:
+            return
+        t = f.get("type", -1)
+        if t is None or t < 0 or t >= len(ins):
+            return
+        x = ins[t]
+        args = f.get("natArgs") or []
+        if x["kind"] == "array" and x.get("isTuple") and x.get("dynamicSize") and args and args[0]["kind"] == "num":
+            c = args[0]["value"]
+            key = (t, c)
+            if key not in cache:
+                y = copy.deepcopy(x)
+                y["id"] = len(out)
+                y["dynamicSize"] = False
+                y["count"] = c
+                y["name"] = x["name"] + f"#fixed{c}"
+                y["topLevel"] = False
+                cache[key] = y["id"]
+                out.append(y)
+                fix(y["elem"])
+            f["type"] = cache[key]
+
+    n0 = len(out)
+    for x in out[:n0]:
+        for f in x.get("fields", []):
+            fix(f)
+        fix(x.get("elem"))
+        fix(x.get("result"))
+    return out
+
+
 def write_ir_file(ins, path):
     lines = []
     for x in ins:
@@ -122,7 +169,10 @@ def toplevel_objects(ins):
 class GenPkg:
     """Go code generated by the current tl2gen for a set of schema files, plus the gendrv driver."""
 
-    def __init__(self, scratch, name, tl2gen, files, options=(), extra_driver_files=None):
+    DRIVER_FILES = ("main.go", "ops_tl1.go")
+
+    def __init__(self, scratch, name, tl2gen, files, options=(), extra_driver_files=None, driver_files=None):
+        self.driver_files = tuple(driver_files or self.DRIVER_FILES)
         self.dir = Path(scratch) / f"mod_{name}"
         self.name = name
         self.tl2gen = tl2gen
@@ -146,8 +196,8 @@ class GenPkg:
         src = VERIF / "harness" / "go" / "gendrv"
         drv = self.dir / "drv"
         drv.mkdir(exist_ok=True)
-        for f in src.glob("*.go"):
-            shutil.copy(f, drv / f.name)
+        for fn in self.driver_files:   # only the op families this check needs (others may need TL2 etc.)
+            shutil.copy(src / fn, drv / fn)
         for fn, content in self.extra.items():
             (drv / fn).write_text(content)
         (self.dir / "go.mod").write_text((src / "go.mod.tmpl").read_text().replace("@REPO@", str(REPO)))
